@@ -30,6 +30,7 @@ type c16Case struct {
 	Mono        bool    `json:"monotonic"`  // epoch and readings from time.Now() inside a synctest bubble (as main.go does)
 	Wildcard    bool    `json:"wildcard"`
 	TickNS      int64   `json:"tick_ns"` // >0: the injected clock advances by this much on every reading (as a real clock does)
+	Fanout      int     `json:"fanout,omitempty"` // wildcard stanzas expand to this many prefixes / routes (0 = 1)
 }
 
 const c16MonoMax = int64(100 * 365 * 24 * time.Hour)
@@ -37,11 +38,23 @@ const c16MonoMax = int64(100 * 365 * 24 * time.Hour)
 type c16Reading struct{ valid, pref, route, cValid, cPref, cRoute time.Duration }
 
 func c16Build(c c16Case, epoch time.Time, now func() time.Time) (apply func() (c16Reading, error)) {
+	fan := 1
+	if c.Wildcard && c.Fanout > 1 {
+		fan = c.Fanout
+	}
 	addrs := func() ([]system.IP, error) {
-		return []system.IP{{Address: netip.MustParsePrefix("2001:db8:7::1/64")}}, nil
+		out := []system.IP{{Address: netip.MustParsePrefix("2001:db8:7::1/64")}}
+		for i := 1; i < fan; i++ {
+			out = append(out, system.IP{Address: netip.MustParsePrefix(fmt.Sprintf("2001:db8:7:%x::1/64", i))})
+		}
+		return out, nil
 	}
 	routes := func() ([]system.Route, error) {
-		return []system.Route{{Prefix: netip.MustParsePrefix("2001:db8:8::/48"), Index: 1}}, nil
+		out := []system.Route{{Prefix: netip.MustParsePrefix("2001:db8:8::/48"), Index: 1}}
+		for i := 1; i < fan; i++ {
+			out = append(out, system.Route{Prefix: netip.MustParsePrefix(fmt.Sprintf("2001:db8:%x::/48", 8+i)), Index: 1})
+		}
+		return out, nil
 	}
 	mkP := func(dep bool) *Prefix {
 		p := &Prefix{Prefix: netip.MustParsePrefix("2001:db8:7::/64"), OnLink: true, Autonomous: true,
@@ -68,17 +81,34 @@ func c16Build(c c16Case, epoch time.Time, now func() time.Time) (apply func() (c
 				return c16Reading{}, verifkit.Violf("C16/unexpected-error", "Apply failed: %v", err)
 			}
 		}
-		if len(ra.Options) != 4 {
-			return c16Reading{}, verifkit.Violf("C16/option-count", "want 4 options got %s", vkOptsString(ra.Options))
+		if len(ra.Options) != 4*fan {
+			return c16Reading{}, verifkit.Violf("C16/option-count", "want %d options got %s", 4*fan, vkOptsString(ra.Options))
 		}
-		p1, ok1 := ra.Options[0].(*ndp.PrefixInformation)
-		p2, ok2 := ra.Options[1].(*ndp.PrefixInformation)
-		r1, ok3 := ra.Options[2].(*ndp.RouteInformation)
-		r2, ok4 := ra.Options[3].(*ndp.RouteInformation)
-		if !ok1 || !ok2 || !ok3 || !ok4 {
-			return c16Reading{}, verifkit.Violf("C16/option-kind", "unexpected options %s", vkOptsString(ra.Options))
+		// every option a stanza expands to carries the stanza's lifetimes:
+		// the reading of a group is its first option, and all others must agree
+		var pis [2]*ndp.PrefixInformation
+		var ris [2]*ndp.RouteInformation
+		for g := 0; g < 2; g++ {
+			for i := 0; i < fan; i++ {
+				p, ok1 := ra.Options[g*fan+i].(*ndp.PrefixInformation)
+				r, ok2 := ra.Options[2*fan+g*fan+i].(*ndp.RouteInformation)
+				if !ok1 || !ok2 {
+					return c16Reading{}, verifkit.Violf("C16/option-kind", "unexpected options %s", vkOptsString(ra.Options))
+				}
+				if i == 0 {
+					pis[g], ris[g] = p, r
+					continue
+				}
+				if c.TickNS > 0 {
+					continue // with a ticking clock each option may legitimately come from its own reading
+				}
+				if p.ValidLifetime != pis[g].ValidLifetime || p.PreferredLifetime != pis[g].PreferredLifetime || r.RouteLifetime != ris[g].RouteLifetime {
+					return c16Reading{}, verifkit.Violf("C16/options-of-one-stanza-disagree", "option %d of %d of a wildcard stanza (deprecated=%v) carries %v/%v/%v, the first %v/%v/%v",
+						i+1, fan, g == 0, p.ValidLifetime, p.PreferredLifetime, r.RouteLifetime, pis[g].ValidLifetime, pis[g].PreferredLifetime, ris[g].RouteLifetime)
+				}
+			}
 		}
-		return c16Reading{p1.ValidLifetime, p1.PreferredLifetime, r1.RouteLifetime, p2.ValidLifetime, p2.PreferredLifetime, r2.RouteLifetime}, nil
+		return c16Reading{pis[0].ValidLifetime, pis[0].PreferredLifetime, ris[0].RouteLifetime, pis[1].ValidLifetime, pis[1].PreferredLifetime, ris[1].RouteLifetime}, nil
 	}
 }
 
@@ -129,6 +159,9 @@ func c16Prop(k *verifkit.Kit) func(c c16Case) error {
 		}
 		if c.Wildcard {
 			cls = append(cls, "wildcard")
+			if c.Fanout > 4 {
+				cls = append(cls, "wildcard-expands-to-5+")
+			}
 		}
 		if c.TickNS > 0 {
 			cls = append(cls, "ticking-clock")
@@ -265,6 +298,9 @@ func c16Gen(t *rapid.T) c16Case {
 		EpochUnixNS: rapid.Int64Range(1, 4102444800).Draw(t, "epoch-s")*int64(time.Second) + rapid.Int64Range(0, 999999999).Draw(t, "epoch-ns"),
 		Mono:        rapid.IntRange(0, 4).Draw(t, "mono") == 0,
 		Wildcard:    rapid.Bool().Draw(t, "wildcard"),
+	}
+	if c.Wildcard && rapid.Bool().Draw(t, "fan") {
+		c.Fanout = rapid.SampledFrom([]int{2, 3, 4, 5, 6, 8, 9, 12, 17, 20}).Draw(t, "fanout")
 	}
 	if !c.Mono && rapid.IntRange(0, 2).Draw(t, "ticking") == 0 {
 		c.TickNS = rapid.SampledFrom([]int64{1, 1000, int64(time.Millisecond), int64(time.Second)}).Draw(t, "tick")
